@@ -237,8 +237,21 @@ def run(ctx):
     nontriv = [e for e in rel if not (e["e"] == "val" and e.get("res") == "notfound") and not (e["e"] in ("get", "ski") and not e.get("res"))]
     distinct = len({vlib.digest(e) for e in nontriv})
 
+    extras = []
+    if pid == "C01":
+        # beyond the listed properties: the bit helpers the trie is built on, judged by IpBitsTrace.tla (never a violation)
+        from tracecheck import extra_conformance
+        exe_b = vlib.build_harness(pid, "asan", ["ipbits_harness.c"], objs, exe="h_ipbits")
+        tb = os.path.join(wd, "traceBits.ndjson")
+        rc_b, out_b = vlib.sh([exe_b, str(seed), "7" if tier == "quick" else "40", tb], env=vlib.SAN_ENV, timeout=300)
+        if rc_b == 0:
+            extras.append(extra_conformance(ctx, wd, "IpBitsTrace", "IpBitsTrace.cfg", "OK_EXT", tb,
+                                            "lrtr_ip_addr_get_bits for every (from, n) of sample addresses, is_zero, equal (IpBits.tla)"))
+        else:
+            extras.append({"what": "bit helpers", "accepted": False, "note": "harness exit %d" % rc_b})
     rcode = verdict.finish()
     vlib.write_evidence(pid, tier, seed, "model_checking", {
+        "extra_conformance": extras,
         "states": states, "transitions": transitions, "traces_validated_against_impl": tc.traces,
         "samples": (nontriv or rel)[:3],
         "evaluations": len(rel), "distinct_nontrivial": distinct,
